@@ -148,6 +148,29 @@ theorem connBlock_td (s : St) (p : Option Nat) (b : Bool) :
 @[simp] theorem connBlock_trace (s : St) (p : Option Nat) (b : Bool) : (connBlock s p b).trace = s.trace := (connBlock_td s p b).1
 @[simp] theorem connBlock_depth (s : St) (p : Option Nat) (b : Bool) : (connBlock s p b).depth = s.depth := (connBlock_td s p b).2
 
+theorem collectStep_td (s s' : St) (h : collectStep s = some s') : s'.trace = s.trace ∧ s'.depth = s.depth := by
+  unfold collectStep at h
+  split at h
+  · simp at h; subst h; simp
+  · split at h
+    · simp at h; subst h
+      split <;> simp
+    · simp at h
+
+theorem collectN_td (n : Nat) (s : St) : (collectN n s).trace = s.trace ∧ (collectN n s).depth = s.depth := by
+  induction n generalizing s with
+  | zero => exact ⟨rfl, rfl⟩
+  | succ n ih =>
+    simp only [collectN]
+    split
+    · rename_i s1 h1
+      have e1 := collectStep_td s s1 h1
+      exact ⟨(ih s1).1.trans e1.1, (ih s1).2.trans e1.2⟩
+    · exact ⟨rfl, rfl⟩
+
+@[simp] theorem collect_trace (s : St) : (collect s).trace = s.trace := (collectN_td _ s).1
+@[simp] theorem collect_depth (s : St) : (collect s).depth = s.depth := (collectN_td _ s).2
+
 /-- finishing tactic for one `stepSimple` case: `h : <result> = some (s', r)` after unfolding -/
 macro "td_finish" : tactic => `(tactic| (
   first
